@@ -1,0 +1,20 @@
+//go:build verif
+
+package batchrelease
+
+import (
+	"k8s.io/apimachinery/pkg/runtime"
+	"k8s.io/client-go/tools/record"
+	"sigs.k8s.io/controller-runtime/pkg/client"
+)
+
+// VerifNewReconciler builds a BatchReleaseReconciler the way newReconciler does, from explicit parts
+// (verification harness only; compiled with -tags verif).
+func VerifNewReconciler(cli client.Client, scheme *runtime.Scheme, recorder record.EventRecorder) *BatchReleaseReconciler {
+	return &BatchReleaseReconciler{
+		Client:   cli,
+		Scheme:   scheme,
+		recorder: recorder,
+		executor: NewReleasePlanExecutor(cli, recorder),
+	}
+}
